@@ -34,8 +34,12 @@ class HBuilder(Builder):
         r = self.rng
         uid = self.new_uid()
         nm = r.choice([self.name("VAR", uid), f'"VN{uid}Z"', f"V.N{uid}Z-x", "${pre}N%dZ" % uid])
-        n = r.choice([0, 1, 1, 1, 2, 2, 3, 6])
+        n = r.choice([0, 1, 1, 1, 2, 2, 3, 6, 15])
         vals = [self.value() for _ in range(n)]
+        if n == 1 and r.random() < 0.1:
+            vals = ['"' + "a long single string value with many words " * 4 + '"']
+        if n == 15:
+            vals = [v if r.random() < 0.4 else "long_value_text_%d_xxxxxxxxxxxxxxxx" % i for i, v in enumerate(vals)]
         if n == 0:
             ty, dv = "UNSET", None
         elif n == 1:
@@ -49,7 +53,8 @@ class HBuilder(Builder):
         uid = self.new_uid()
         nm = self.name("OPT", uid)
         hlp = r.choice(VALUES["quoted"] + ["HELP", "${h}", "[[help text]]"])
-        dflt = r.choice([None, None, "ON", "OFF", '"ON"', "${DEFAULT}", "TRUE", "0", '""', "[[ON]]"])
+        dflt = r.choice([None, None, "ON", "OFF", '"ON"', "${DEFAULT}", "TRUE", "0", '""', "[[ON]]", "${my_default}", "off",
+                         '"on"', "Maybe", "${Mixed_Case}", "$ENV{dflt}", "a;b"])
         args = [nm, hlp] + ([dflt] if dflt is not None else [])
         return Item("option", "option", args, uid, doc=self.doc(uid), name=nm, help=hlp, default=dflt)
 
